@@ -140,6 +140,195 @@ fn check_probe_zone(ctx: &Ctx, z: &MZone, tl: &mut Tally, fw: &mut (u64, u64)) {
     }
 }
 
+/// zone of the huge-table sweep: `n` records of one sign at the minimal spacing (the accumulated correction exceeds the
+/// spacing from record `spacing - 1` on), one transition at count (record i) + d
+fn huge_zone(sign: i32, n: usize, i: usize, d: i64) -> MZone {
+    let sp = D28 - 1;
+    let leaps: Vec<(i64, i32)> = (0..n).map(|k| (1000 + k as i64 * sp, sign * (k as i32 + 1))).collect();
+    let types = vec![MType::new(0, false, Some("AAA")), MType::new(3600, true, Some("BBB"))];
+    let t = leaps[i].0 + d;
+    MZone { trans: vec![(t, 1)], types: types.clone(), leaps, rule: Some(MRule::Fixed(types[1])) }
+}
+
+/// forward lookups and searches around the single transition of a huge-table zone (results compared with the model without
+/// serialising the zone: the case is replayed from its parameters)
+fn check_huge(ctx: &Ctx, sign: i32, n: usize, i: usize, d: i64, counts: &mut (u64, u64)) {
+    let cyc = ctx.cyc;
+    let z = huge_zone(sign, n, i, d);
+    let iz = ImplZone::from_model(&z).unwrap();
+    let case = |what: &str, x: i64| json!({"kind":"huge_leap","sign":sign,"records":n,"record":i,"delta":d,"what":what,"x":x});
+    let zr = match iz.zref() {
+        Ok(r) => r,
+        Err(e) => {
+            ctx.rec.violation("huge_table", case("zone", 0), json!("valid leap table accepted"), json!(err_name(&e)));
+            return;
+        }
+    };
+    let sw = z.switch_instant(z.trans[0].0).expect("switch instant");
+    for u in sw - 3..=sw + 3 {
+        counts.0 += 1;
+        let exp = z.forward(cyc, u).map(|m| m.off);
+        let got = zr.find_local_time_type(u).map(|l| l.ut_offset());
+        if exp.as_ref().ok() != got.as_ref().ok() || exp.is_err() != got.is_err() {
+            ctx.rec.violation("huge_table", case("forward", u), json!(format!("{exp:?} (switch instant {sw})")), json!(format!("{got:?}")));
+        }
+    }
+    for l in [sw - 1, sw, sw + 1800, sw + 3600 - 1, sw + 3600] {
+        counts.1 += 1;
+        let f = match Fields::of_local(cyc, l, 0) {
+            Some(f) => f,
+            None => continue,
+        };
+        let exp = z.search(cyc, l);
+        let mut en: Vec<i64> = vec![];
+        let mut eg: Vec<i64> = vec![];
+        for e in &exp {
+            match e {
+                refmodel::zone::Found::Normal { u, .. } => en.push(*u),
+                refmodel::zone::Found::Skipped { u, .. } => eg.push(*u),
+            }
+        }
+        let mut buf: [Option<tz::datetime::FoundDateTimeKind>; 8] = [None; 8];
+        let got = tz::DateTime::find_n(&mut buf, f.y, f.mo, f.d, f.h, f.mi, f.s, f.ns, zr).map(|list| {
+            let mut gn = vec![];
+            let mut gg = vec![];
+            for k in list.data().iter().flatten() {
+                match k {
+                    tz::datetime::FoundDateTimeKind::Normal(x) => gn.push(x.unix_time()),
+                    tz::datetime::FoundDateTimeKind::Skipped { before_transition, .. } => gg.push(before_transition.unix_time()),
+                }
+            }
+            gn.sort();
+            (gn, gg)
+        });
+        // I5: a UTC label deleted by a negative leap second denotes no point in time (readings with such a candidate are not
+        // judged; a gap reported at a deleted label denotes its successor)
+        if z.offsets().iter().any(|&o| z.deleted(l - o as i64)) {
+            continue;
+        }
+        let gaps_agree = |gg: &Vec<i64>| gg.len() == eg.len() && gg.iter().zip(eg.iter()).all(|(g, e)| g == e || (z.deleted(*g) && g + 1 == *e));
+        match got {
+            Ok((gn, gg)) if gn == en && gaps_agree(&gg) => {}
+            other => ctx.rec.violation("huge_table", case("search", l), json!({"valid": en, "gaps": eg}), json!(format!("{:?}", other.map_err(|e| err_name(&e))))),
+        }
+    }
+}
+
+fn sweep_huge_table(ctx: &Ctx, thorough: bool) -> (u64, u64) {
+    let sp = (D28 - 1) as usize;
+    let n = sp + 300;
+    let mut work = vec![];
+    for sign in [1i32, -1] {
+        let recs: Vec<usize> = if thorough { vec![0, 1, sp / 2, sp - 3, sp - 2, sp - 1, sp, sp + 1, sp + 2, sp + 100, n - 1] } else { vec![sp - 2, sp - 1, sp, sp + 100] };
+        for i in recs {
+            for d in [-1i64, 0, 1] {
+                work.push((sign, i, d));
+            }
+        }
+    }
+    let r = work
+        .par_iter()
+        .map(|&(sign, i, d)| {
+            let mut c = (0u64, 0u64);
+            if let Err(m) = guard(|| {
+                let mut c2 = (0u64, 0u64);
+                check_huge(ctx, sign, n, i, d, &mut c2);
+                c2
+            })
+            .map(|c2| c = c2)
+            {
+                ctx.rec.violation("huge_table", json!({"kind":"huge_leap","sign":sign,"records":n,"record":i,"delta":d,"what":"panic","x":0}), json!("no panic"), json!(m));
+            }
+            c
+        })
+        .reduce(|| (0, 0), |a, b| (a.0 + b.0, a.1 + b.1));
+    ctx.rec.sub("huge_table", json!({"records": n, "zones": work.len(), "forward_lookups": r.0, "searches": r.1, "note": "one-signed table at the minimal spacing: the accumulated correction reaches the record spacing"}));
+    r
+}
+
+/// offsets that differ by more than two record spacings: the candidate instants of one search lie several records apart
+pub fn sweep_wide_offsets(ctx: &Ctx, thorough: bool) -> Tally {
+    let cyc = ctx.cyc;
+    let sp = D28 - 1;
+    let len = if thorough { 6 } else { 5 };
+    let mut work = vec![];
+    for signs in 0..(1u32 << len) {
+        for w in [5_000_000i32, 2 * sp as i32 + 7, 3 * sp as i32 - 1] {
+            for (a, b) in [(0, w), (w, 0), (0, -w), (-w, 0)] {
+                work.push((signs, a, b));
+            }
+        }
+    }
+    let t = work
+        .par_iter()
+        .map(|&(signs, a, b)| {
+            let mut tl = Tally::default();
+            let r = guard(|| {
+                let mut tl = Tally::default();
+                let mut leaps = vec![];
+                let mut c = 0i32;
+                for k in 0..len {
+                    c += if signs & (1 << k) != 0 { 1 } else { -1 };
+                    leaps.push((10 * sp + k as i64 * sp, c));
+                }
+                for pat in 0..4 {
+                    let types = vec![MType::new(a, false, Some("AAA")), MType::new(b, true, Some("BBB"))];
+                    let trans: Vec<(i64, usize)> = match pat {
+                        0 => (0..len as usize).map(|k| (leaps[k].0, (k + 1) % 2)).collect(),
+                        1 => (0..len as usize).map(|k| (leaps[k].0 - 1, (k + 1) % 2)).collect(),
+                        2 => (0..len as usize).map(|k| (leaps[k].0 + 1, (k + 1) % 2)).collect(),
+                        _ => vec![(leaps[1].0, 1), (leaps[1].0 + 11 * sp, 0), (leaps[1].0 + 21 * sp, 1)],
+                    };
+                    let last = trans[trans.len() - 1].1;
+                    let z = MZone { trans, types: types.clone(), leaps: leaps.clone(), rule: Some(MRule::Fixed(types[last])) };
+                    let iz = ImplZone::from_model(&z).unwrap();
+                    let zr = match iz.zref() {
+                        Ok(r) => r,
+                        Err(_) => {
+                            tl.refused_zones += 1;
+                            continue;
+                        }
+                    };
+                    tl.zones += 1;
+                    let mut ls = vec![];
+                    for k in 0..len as usize {
+                        let th = z.leap_utc(k);
+                        for u in th - 2..=th + 2 {
+                            for o in [a as i64, b as i64] {
+                                ls.push(u + o);
+                            }
+                        }
+                    }
+                    for &(t, _) in &z.trans {
+                        if let Some(sw) = z.switch_instant(t) {
+                            for u in sw - 2..=sw + 1 {
+                                for o in [a as i64, b as i64] {
+                                    ls.push(u + o);
+                                }
+                            }
+                        }
+                    }
+                    ls.sort();
+                    ls.dedup();
+                    for l in ls {
+                        if let Some(f) = Fields::of_local(cyc, l, 0) {
+                            check_search(ctx, &z, zr, &f, "wide_offsets", &mut tl);
+                        }
+                    }
+                }
+                tl
+            });
+            match r {
+                Ok(t) => tl = tl.merge(t),
+                Err(m) => ctx.rec.violation("wide_offsets", json!({"kind":"wide","signs":signs,"a":a,"b":b}), json!("no panic"), json!(m)),
+            }
+            tl
+        })
+        .reduce(Tally::default, Tally::merge);
+    ctx.rec.sub("wide_offsets", t.json());
+    t
+}
+
 pub fn run(args: &Args) -> i32 {
     let rec = Recorder::new(args, "model_checking");
     let cyc = Cycle::build();
@@ -193,12 +382,16 @@ pub fn run(args: &Args) -> i32 {
             (tl, fw)
         })
         .reduce(|| (Tally::default(), (0, 0)), |a, b| (a.0.merge(b.0), (a.1 .0 + b.1 .0, a.1 .1 + b.1 .1)));
-    let (tl, fw) = res;
+    let (mut tl, mut fw) = res;
+    let h = sweep_huge_table(&ctx, thorough);
+    fw.0 += h.0 + h.1;
+    fw.1 += h.0 + h.1;
+    tl = tl.merge(sweep_wide_offsets(&ctx, thorough));
     rec.sub("probe_zones", json!({"leap_tables": tabs.len(), "zones": tl.zones, "forward_lookups": fw.0, "searches": tl.searches, "searches_with_gap": tl.with_gap, "normalised_deleted_labels_I5": tl.normalised_deleted}));
     rec.add(fw.0 + tl.searches, fw.1 + tl.nontrivial);
     rec.add_model(fw.0 + tl.searches, fw.0 + tl.searches, fw.0 + tl.searches);
     rec.digest("leap", tl.digest);
-    rec.set_rule("leap tables: all +-1 sign sequences of length 1..4 (5 thorough) x 3 first-record times x 3 spacings (constructor minimum and above) + the real 27-record table; probe zones with one (or two adjacent) transitions at counts record-3..record+3, record+-1h, far; states = (table, transition count, UTC second of a +-40 s walk / local reading); forward lookup and search compared with the two-scale clock model. non-trivial = walk instants adjacent to the switch and searches whose expected result is not one valid instant");
+    rec.set_rule("leap tables: all +-1 sign sequences of length 1..4 (5 thorough) x 3 first-record times x 3 spacings (constructor minimum and above) + the real 27-record table + long tables + one-signed tables of 2,419,499 records at the minimal spacing (accumulated correction >= spacing) + all sign sequences of length 5 (6) with offsets more than two spacings apart; probe zones with one (or two adjacent) transitions at counts record-3..record+3, record+-1h, far; states = (table, transition count, UTC second of a +-40 s walk / local reading); forward lookup and search compared with the two-scale clock model. non-trivial = walk instants adjacent to the switch and searches whose expected result is not one valid instant");
     rec.set_exhaustive(true);
     rec.outcome("switch");
     rec.outcome("gap");
@@ -213,6 +406,22 @@ pub fn replay(case: &Value, args: &Args) -> i32 {
     let cyc = Cycle::build();
     let ctx = Ctx { cyc: &cyc, rec: &rec, prop: Prop::C12, kf1_open: false, kf2_open: false, kf3_open: false };
     let kind = case["kind"].as_str().unwrap_or("");
+    if kind == "huge_leap" {
+        let g = |k: &str| case[k].as_i64().unwrap();
+        for _ in 0..2 {
+            let mut c = (0, 0);
+            if let Err(m) = guard(|| check_huge(&ctx, g("sign") as i32, g("records") as usize, g("record") as usize, g("delta"), &mut c)) {
+                rec.violation("replay", case.clone(), json!("no panic"), json!(m));
+            }
+        }
+        return if rec.viol_count.load(std::sync::atomic::Ordering::Relaxed) > 0 {
+            println!("REPLAY: violation reproduced");
+            1
+        } else {
+            println!("REPLAY: case passes");
+            0
+        };
+    }
     if !matches!(kind, "probe" | "probe_fwd" | "search") {
         return 2;
     }
